@@ -394,8 +394,192 @@ def check_codec(item):
     return finish(res, st)
 
 
+# ---------------------------------------------------------------------------
+DISPATCH = ('opcodes', 'after_CB', 'after_ED', 'after_DD', 'after_FD', 'after_DDCB', 'after_FDCB')
+ENTRY_SIZE = 48          # sizeof(OpcodeFunction): function pointer, lookup pointer, int[7], padding (checked against the IR type)
+
+
+def _exec_frame_support():
+    import llsym
+
+    def do_call(self, env, dst, rhs, _orig=llsym.Interp.do_call):
+        ef = getattr(self, 'exec_frame', None)
+        if ef is not None:
+            import re
+            m = re.match(r'call (?:[a-z_]+ )*?(.+?) (@[\w.]+|%\d+)\((.*)\)$', rhs)
+            if m:
+                callee = m.group(2)
+                if callee in ('@PyArg_ParseTupleAndKeywords', '@_PyArg_ParseTupleAndKeywords_SizeT'):
+                    vals = [self.val(env, tok, ty) for ty, tok in (self._ty_tok(a) for a in llsym.split_top(m.group(3)))]
+                    self.store(vals[4], 'i32', ef['fetch_count'])
+                    self.store(vals[6], '%struct._object*', llsym.Ptr(('pyobj', 'trace_callback')))
+                    env[dst] = z3.BitVecVal(1, 32)
+                    return
+                if callee == '@PyObject_Call':
+                    vals = [self.val(env, tok, ty) for ty, tok in (self._ty_tok(a) for a in llsym.split_top(m.group(3)))]
+                    if vals[0].region == ('pyobj', 'trace_callback'):
+                        fmt, av = self.pyvals[vals[1].region[1]]
+                        ef['trace'].append(tuple(av))
+                        env[dst] = llsym.Ptr(('pyval', 'none'))
+                        return
+                if callee == '@PyLong_FromLong':
+                    vals = [self.val(env, tok, ty) for ty, tok in (self._ty_tok(a) for a in llsym.split_top(m.group(3)))]
+                    ef['ret'] = vals[0]
+                    env[dst] = llsym.Ptr(('pyval', 'ret'))
+                    return
+                if callee.startswith('%'):
+                    fp = env[callee]
+                    if not fp.is_null() and fp.region[0] == 'func':
+                        ef['dispatched'] += 1
+                        if ef['dispatched'] > 1:
+                            raise SecondFetch('CSimulator_exec_frame executes a second instruction')
+        return _orig(self, env, dst, rhs)
+
+    def load(self, p, ty, _orig=llsym.Interp.load):
+        ef = getattr(self, 'exec_frame', None)
+        if ef is not None and not p.is_null() and p.region[0] == 'global' and p.region[1] in DISPATCH:
+            if p.terms or not z3.is_bv_value(z3.simplify(p.off)):
+                if ef['dispatched'] >= 1:
+                    raise SecondFetch('CSimulator_exec_frame fetches a second instruction')
+                raise HarnessError('symbolic index into dispatch table %s' % p.region[1])
+            off = z3.simplify(p.off).as_signed_long()
+            entry, field = divmod(off, ENTRY_SIZE)
+            func, lookup, idx, args = self.m.optables[p.region[1]][entry]
+            t = self.m.ty(ty)
+            if field == 0:
+                return llsym.Ptr(('func', func)) if func else llsym.NULL
+            if field == 8:
+                if not lookup:
+                    return llsym.NULL
+                gt, _ = self.m.global_type(lookup)
+                return self.gep(llsym.Ptr(('table', lookup)), gt, [z3.BitVecVal(i, 64) for i in idx])
+            return z3.BitVecVal(args[(field - 16) // 4] & 0xFFFFFFFF, 32)
+        return _orig(self, p, ty)
+    llsym.Interp.do_call = do_call
+    llsym.Interp.load = load
+
+
+_exec_frame_support()
+_CM = {}
+
+
+def cmachine():
+    import csim
+    if 'cm' not in _CM:
+        _CM['cm'] = csim.CMachine(False, '48K', True)
+        gt = _CM['cm'].m.ty('%struct.OpcodeFunction')
+        if gt.size() != ENTRY_SIZE:
+            raise HarnessError('sizeof(OpcodeFunction) is %d' % gt.size())
+    return _CM['cm']
+
+
+def check_cframe(item):
+    """('cframe', table, op): the Python frame loop of process_block against CSimulator_exec_frame (LLVM IR), one frame of one
+    instruction: same fetch counter, PC and T reported to the trace callback, same registers and memory when the loop ends"""
+    _, table, op = item
+    slot = (table, op)
+    import skoolkit.rzxplay as rp
+    import llsym
+    m = machine()
+    CM = cmachine()
+    st = Stats()
+    res = new_res()
+    name = 'frame loop Python vs C %s' % harness.item_name(slot)
+    pins = z80ref.slot_bytes(slot)
+    F1 = m1_count(slot)
+    state = {}
+
+    def fn(path):
+        m.reset(path)
+        pc16 = z3.Extract(15, 0, m.regs0[24])
+        arr = m.mem0
+        for k, b in enumerate(pins):
+            if b is not None:
+                arr = z3.Store(arr, pc16 + k, z3.BitVecVal(b, 8))
+        m.mem0 = arr
+        m.mem.arr = arr
+        inp = sym_int('port_reading', 0, 255)
+        ptrace = []
+        ctx, tracer, n_in = setup_playback(m, path, slot, 0, Rec(), 5)
+        block = rp.InputRecording(m.sim.registers[25], [rp.Frame(F1, 0, n_in), rp.Frame(5, n_in, n_in)], [inp][:n_in])
+        opts = Obj()
+        opts.quiet, opts.stop, opts.cmio, opts.python = True, 1, False, True
+        m.mem.guard = {'sim': m.sim, 'fetches': 0, 'mem0': arr, 'tracer': tracer}
+        snap = {}
+        real_trace = rp.trace_exec
+        def rec_trace(tf, c, fc, pc, t0):
+            ptrace.append((fc, pc, t0))
+            snap['regs'] = m.post_regs()          # state right after the instruction (the loop resets T when the frame ends)
+            snap['mem'] = m.mem.arr
+        rp.trace_exec = rec_trace
+        try:
+            rp.process_block(block, opts, 0, ctx)
+        finally:
+            m.mem.guard = None
+            rp.trace_exec = real_trace
+        # C side from the same pre-state
+        cst = CM.state(m.regs0, m.mem0)
+        cst.fields['int_active'] = z3.BitVecVal(0, 32)          # as rzxplay configures the simulator
+        it = llsym.Interp(CM.m, CM.m.field_names, cst, path, CM.m.table_dims)
+        ef = dict(fetch_count=z3.BitVecVal(F1, 32), trace=[], ret=None, dispatched=0)
+        it.exec_frame = ef
+        it.call('CSimulator_exec_frame', [llsym.Ptr(('self',)), llsym.Ptr(('pyobj', 'args')), llsym.Ptr(('pyobj', 'kwds'))])
+        state.update(inp=inp)
+        return snap, ptrace, cst, ef
+
+    def case_of(mod):
+        regs, mem, _ = simcheck.model_state(mod, m)
+        return dict(kind='cframe', slot=list(slot), regs=regs, mem=mem, inp=mod.eval(state['inp'].e, model_completion=True).as_long() if 'inp' in state else 0)
+
+    def on(p, out):
+        res['obligations'] += 1
+        if isinstance(out, tuple) and out[0] == 'exception':
+            r, mod = p.check(model=True)
+            res['violations'].append(dict(key='%s:%s' % (name, type(out[1]).__name__), text='%s: %s' % (name, out[1]), case=case_of(mod)))
+            return
+        snap, ptrace, cst, ef = out
+        structural, diffs, names = [], [], []
+        if len(ptrace) != len(ef['trace']):
+            structural.append('Python traces %d instruction(s), C %d' % (len(ptrace), len(ef['trace'])))
+        else:
+            for (fc, pc, t0), (cfc, cpc, ct0) in zip(ptrace, ef['trace']):
+                diffs.append(z3.SignExt(32, cfc) != bv(fc)); names.append('fetch counter after the instruction')
+                diffs.append(z3.ZeroExt(32, cpc) != bv(pc)); names.append('PC reported to the trace')
+                diffs.append(ct0 != bv(t0)); names.append('T reported to the trace')
+        # the port reading: the C side draws its own input variable
+        extra = []
+        if cst.inputs:
+            extra.append(cst.inputs[0] == state['inp'].e)
+        for i in range(29):
+            diffs.append(snap['regs'][i] != cst.regs[i]); names.append(sh.REG_NAMES[i])
+        k = z3.BitVec('k_addr', 16)
+        diffs.append(z3.Select(snap['mem'], k) != z3.Select(cst.mem, k)); names.append('memory')
+        with p.assuming(*extra):
+            if structural:
+                r, mod = p.check(model=True); which = structural
+            else:
+                r, mod, which = p.check_any(diffs, names)
+        if r == 'unknown':
+            res['inconclusive'].append(name); return
+        if r == 'sat' or p.failed_obligations():
+            if mod is None:
+                r, mod = p.check(model=True); which = ['side obligation']
+            res['violations'].append(dict(key='%s:%s' % (name, which[0][:40]), text='%s: %s' % (name, ', '.join(which[:5])), case=case_of(mod)))
+            return
+        res['discharged'] += 1
+        res['nontrivial'] += 1
+        if not res['samples']:
+            res['samples'].append({'item': name, 'frame': F1, 'trace calls': len(ptrace), 'verdict': 'unsat'})
+
+    try:
+        explore(fn, stats=st, on_path=on, max_paths=400)
+    except Inconclusive as e:
+        res['inconclusive'].append('%s: %s' % (name, e))
+    return finish(res, st)
+
+
 def work(item):
-    return {'fetch': check_fetch, 'codec': check_codec}[item[0]](item)
+    return {'fetch': check_fetch, 'codec': check_codec, 'cframe': check_cframe}[item[0]](item)
 
 
 # ---------------------------------------------------------------------------
@@ -502,6 +686,56 @@ def replay(case):
             return got != want, 'parsed %r, written %r' % (got, want) if got != want else 'frames round-trip'
         finally:
             shutil.rmtree(d, ignore_errors=True)
+    if case['kind'] == 'cframe':
+        import csim
+        slot = tuple(case['slot'])
+        mem, default = simcheck.mem_from_case(case['mem'])
+        regs = list(case['regs'])
+        ext = csim.build_extension(False)
+        F1 = m1_count(slot)
+        outs = []
+        for cls in (sm.Simulator, ext.CSimulator):
+            memory = simcheck.mem_list(mem, default)
+            cfg = {'int_active': 0, 'frame_duration': 69888, 'fast_djnz': False, 'fast_ldir': False}
+            sim = cls(memory, None, None, cfg) if cls is sm.Simulator else cls(bytearray(memory), None, None, cfg)
+            for i, v in enumerate(regs):
+                if i < len(sim.registers):
+                    sim.registers[i] = v
+            rec = Rec()
+
+            class M:
+                pass
+            M.sim = sim
+            ctx, tracer, n_in = setup_playback(M, None, slot, 0, rec, 5)
+            ctx.trace_line = '{fc} {pc} {t}'
+            block = rp.InputRecording(regs[25], [rp.Frame(F1, 0, n_in), rp.Frame(5, n_in, n_in)], [case.get('inp', 0)][:n_in])
+            opts = Obj()
+            opts.quiet, opts.stop, opts.cmio, opts.python = True, 1, False, True
+            n = {'k': 0}
+            real_write = rec.write
+
+            def counted(s_, n=n, real_write=real_write):
+                n['k'] += 1
+                if n['k'] > 4:
+                    raise SecondFetch()
+                real_write(s_)
+            rec.write = counted
+            try:
+                rp.process_block(block, opts, 0, ctx)
+                outs.append((list(rec.lines), list(sim.registers)[:29], [sim.memory[a] for a in range(65536)]))
+            except SecondFetch:
+                outs.append((list(rec.lines) + ['...'], None, None))
+            except Exception as e:
+                outs.append((['raises %r' % e], None, None))
+        (pl, pr, pm), (cl, cr, cm) = outs
+        bad = []
+        if pl != cl:
+            bad.append('trace (fetch counter, PC, T): Python %r, C %r' % (pl, cl))
+        if pr is not None and cr is not None:
+            bad += ['%s: Python %d, C %d' % (sh.REG_NAMES[i], pr[i], cr[i]) for i in range(29) if pr[i] != cr[i]]
+            if pm != cm:
+                bad.append('memory differs')
+        return bool(bad), '; '.join(bad[:4]) or 'Python and C play the frame identically'
     return False, 'no replay for ' + case['kind']
 
 
@@ -516,14 +750,16 @@ def main():
     heavy = {('main', 0x22), ('ED', 0x43), ('ED', 0x53), ('ED', 0x63), ('ED', 0x73), ('DD', 0x22), ('FD', 0x22)}
     if args.tier == 'quick':
         # fetch accounting depends on the prefix class and (for DD/FD) on whether the opcode uses the index register, not on the
-        # individual opcode: the quick tier takes every fourth slot of every table; thorough takes all
-        chosen = [sl for k, sl in enumerate(slots) if k % 4 == 0 and sl not in heavy]
+        # individual opcode: the quick tier takes every eighth slot of every table; thorough takes all
+        chosen = [sl for k, sl in enumerate(slots) if k % 8 == 0 and sl not in heavy]
     else:
         chosen = slots
     items = [('fetch', t, op, 0) for t, op in chosen]
     special = [HALT_SLOT, EI_SLOT] + list(LDAIR) + [('main', 0x00), ('main', 0xF3), ('ED', 0x4D), ('DD', 0x76), ('FD', 0xFB), ('ED', 0x47)]
     for fl in (1, 2, 3):
         items += [('fetch', t, op, fl) for t, op in (special if args.tier == 'quick' else slots)]
+    csel = [sl for k, sl in enumerate(slots) if (k % 16 == 0 or sl in special) and sl not in heavy] if args.tier == 'quick' else slots
+    items += [('cframe', t, op) for t, op in csel]
     for stype in ('z80', 'szx'):
         for nframes, first in ((1, 0), (3, 0), (2, 2)) if args.tier == 'quick' else ((1, 0), (3, 0), (2, 2), (5, 1), (8, 0)):
             items.append(('codec', stype, nframes, first))
@@ -532,10 +768,11 @@ def main():
     rep = harness.Report(
         PROP, args,
         functions=['skoolkit.rzxplay.process_block (frame loop, frame-boundary interrupt rules)', 'skoolkit.rzxplay.RZXTracer.next_frame / read_port / set_input_rec', 'skoolkit.rzxplay.trace_exec',
-                   'skoolkit.rzxplay.write_rzx / parse_rzx', 'skoolkit.simulator.Simulator closures and accept_interrupt (int_active = 0)', 'skoolkit.traceutils.disassemble'],
-        bounds={'frame loop': 'one frame holding exactly one instruction, %d opcode slots (quick: every fourth slot of each table; thorough: all 1792), arbitrary CPU state and memory, playback flags 0 for all slots and 1-3 for %s; the next frame has 1-1000 fetches (symbolic) and is not played' % (len(chosen), 'the slots the rules name plus a few others' if args.tier == 'quick' else 'all slots'),
+                   'skoolkit.rzxplay.write_rzx / parse_rzx', 'skoolkit.simulator.Simulator closures and accept_interrupt (int_active = 0)', 'skoolkit.traceutils.disassemble', 'c/csimulator.c CSimulator_exec_frame and the opcode handlers it dispatches to (LLVM IR, clang -O1)'],
+        bounds={'frame loop': 'one frame holding exactly one instruction, %d opcode slots (quick: every eighth slot of each table; thorough: all 1792), arbitrary CPU state and memory, playback flags 0 for all slots and 1-3 for %s; the next frame has 1-1000 fetches (symbolic) and is not played' % (len(chosen), 'the slots the rules name plus a few others' if args.tier == 'quick' else 'all slots'),
                 'codec': 'recordings of 1-%d frames with symbolic fetch counters and 0-2 symbolic port readings per frame, written from frame index 0-2, Z80 and SZX embedded snapshots' % (3 if args.tier == 'quick' else 8),
-                'outside': 'whole recordings (more than one instruction per frame), desynchronisation detection, the C exec_frame loop, rzxinfo text, 128K paging during playback, contended playback, frames repeated with the 65535 marker'},
+                'C frame loop': 'CSimulator_exec_frame against the Python loop, one frame of one instruction, %d slots' % len(csel),
+                'outside': 'whole recordings (more than one instruction per frame), desynchronisation detection, rzxinfo text, 128K paging during playback, contended playback, frames repeated with the 65535 marker'},
         assumptions=['memory[0] == 0xF3 (rzxplay passes address 0 as the previous PC to accept_interrupt, which defers the interrupt when it finds EI or a DD/FD prefix there; the Spectrum ROMs hold DI)',
                      'the instruction does not overwrite its own first two bytes (the boundary rules inspect memory after it ran)', 'M1 counts: 1; 2 for CB/ED/DDCB/FDCB and effective DD/FD; 1 for an ineffective DD/FD prefix (skoolkit executes it alone)'],
         stubs=['zlib replaced by the identity in rzxplay (codec item)', 'open/read_bin_file replaced by in-memory files (codec item)', 'format() of symbolic integers renders numeral tokens'],
